@@ -18,6 +18,7 @@ import (
 	_ "go.amzn.com/verifh/c14"
 	_ "go.amzn.com/verifh/c15"
 	_ "go.amzn.com/verifh/c16"
+	_ "go.amzn.com/verifh/c17"
 	_ "go.amzn.com/verifh/c18"
 	_ "go.amzn.com/verifh/c20"
 	_ "go.amzn.com/verifh/smoke"
